@@ -26,12 +26,15 @@ Record pst := PS {
   p_dict : list (name * pev);       (* self.events of the loaded instance, in insertion order *)
   p_pickle : list (name * pev);     (* Scheduler.pickle *)
   p_ncmd : N;                       (* ghost: user requests so far (each gets a fresh command text) *)
-  p_log : list (Z * N) }.           (* ghost: (clock, command) executed, newest first *)
+  p_log : list (Z * N);             (* ghost: (clock, command) executed, newest first *)
+  p_loaded : bool;                  (* an instance of the plugin is loaded *)
+  p_done : list N;                  (* ghost: one-shot requests whose function fired (entry consumed, dict entry deleted), newest first *)
+  p_ign : bool }.                   (* input: the user who scheduled the events is ignored now (ircdb.checkIgnored) *)
 
-Definition pinit : pst := PS [] 0%N 0 0%N [] [] 0%N [].
+Definition pinit : pst := PS [] 0%N 0 0%N [] [] 0%N [] true [] false.
 
-Definition set_sched x s := PS x (p_counter s) (p_now s) (p_gen s) (p_dict s) (p_pickle s) (p_ncmd s) (p_log s).
-Definition set_dict x s := PS (p_sched s) (p_counter s) (p_now s) (p_gen s) x (p_pickle s) (p_ncmd s) (p_log s).
+Definition set_sched x s := PS x (p_counter s) (p_now s) (p_gen s) (p_dict s) (p_pickle s) (p_ncmd s) (p_log s) (p_loaded s) (p_done s) (p_ign s).
+Definition set_dict x s := PS (p_sched s) (p_counter s) (p_now s) (p_gen s) x (p_pickle s) (p_ncmd s) (p_log s) (p_loaded s) (p_done s) (p_ign s).
 
 Fixpoint dhas (k : name) (d : list (name * pev)) : bool :=
   match d with [] => false | (k', _) :: d' => name_eqb k' k || dhas k d' end.
@@ -48,7 +51,7 @@ Definition shas (n : name) (l : list sent) : bool := existsb (fun e => name_eqb 
 (* schedule.addEvent(f, t, name) *)
 Definition s_add (t : Z) (nm : option name) (cmd : N) (rem : bool) (period : option Z) (s : pst) : pst * res name :=
   let '(n, s1) := match nm with
-                  | None => (Auto (p_counter s), PS (p_sched s) (p_counter s + 1)%N (p_now s) (p_gen s) (p_dict s) (p_pickle s) (p_ncmd s) (p_log s))
+                  | None => (Auto (p_counter s), PS (p_sched s) (p_counter s + 1)%N (p_now s) (p_gen s) (p_dict s) (p_pickle s) (p_ncmd s) (p_log s) (p_loaded s) (p_done s) (p_ign s))
                   | Some n => (n, s)
                   end in
   if shas n (p_sched s1) then (s1, Raise AssertionError)
@@ -69,11 +72,14 @@ Definition p_repeat (n : name) (period : Z) (cmd : N) (first nri : Z) (s : pst) 
   end.
 
 Definition fresh_cmd (s : pst) : N * pst :=
-  (p_ncmd s, PS (p_sched s) (p_counter s) (p_now s) (p_gen s) (p_dict s) (p_pickle s) (p_ncmd s + 1)%N (p_log s)).
+  (p_ncmd s, PS (p_sched s) (p_counter s) (p_now s) (p_gen s) (p_dict s) (p_pickle s) (p_ncmd s + 1)%N (p_log s) (p_loaded s) (p_done s) (p_ign s)).
 
-(* die(): _flush() pickles self.events *)
-Definition p_die (s : pst) : pst :=
-  PS (p_sched s) (p_counter s) (p_now s) (p_gen s) (p_dict s) (p_dict s) (p_ncmd s) (p_log s).
+(* die(): _flush() pickles self.events; then (repaired plugin, C18.F24) every event of self.events is removed from the
+   schedule:  for (name, event) in self.events.items(): schedule.removeEvent(int(name) | name), KeyError ignored.
+   [unsched] says whether die() does that: the regenerated table for the code, false for the plugin before the repair. *)
+Definition p_die_with (unsched : bool) (s : pst) : pst :=
+  PS (if unsched then filter (fun e => negb (dhas (s_name e) (p_dict s))) (p_sched s) else p_sched s)
+     (p_counter s) (p_now s) (p_gen s) (p_dict s) (p_dict s) (p_ncmd s) (p_log s) false (p_done s) (p_ign s).
 
 Definition key_int (k : name) : option N := match k with Auto n => Some n | Named _ => None end.
 
@@ -87,7 +93,9 @@ Definition restore_one (s : pst) (kv : name * pev) : pst :=
   match ev with
   | PSingle t cmd rem =>
       let n := match key_int k with
-               | Some i => if (i <? p_counter s)%N then Some (Auto i) else None      (* schedule.counter > int(name) *)
+               | Some i => if (i <? p_counter s)%N                                  (* schedule.counter > int(name) *)
+                              && (negb gen.T18.RESTORE_CHECKS_FREE || negb (shas (Auto i) (p_sched s)))   (* and int(name) not in schedule.events *)
+                           then Some (Auto i) else None
                | None => None
                end in
       let passed := if gen.T18.RESTORE_PASSES_ID then n else None in
@@ -105,11 +113,16 @@ Definition restore_one (s : pst) (kv : name * pev) : pst :=
 (* a new instance: __init__: self.events = {}; _restoreEvents *)
 Definition p_load (s : pst) : pst :=
   fold_left restore_one (p_pickle s)
-            (PS (p_sched s) (p_counter s) (p_now s) (p_gen s + 1)%N [] (p_pickle s) (p_ncmd s) (p_log s)).
+            (PS (p_sched s) (p_counter s) (p_now s) (p_gen s + 1)%N [] (p_pickle s) (p_ncmd s) (p_log s) true (p_done s) (p_ign s)).
 
 (* a scheduled function fires *)
 Definition p_fire (e : sent) (s : pst) : pst :=
-  let logged := PS (p_sched s) (p_counter s) (p_now s) (p_gen s) (p_dict s) (p_pickle s) (p_ncmd s) ((p_now s, s_cmd e) :: p_log s) in
+  (* the function fires; when the code checks `self._isIgnored(msg)` and the user is ignored now, its effect (running the
+     command, sending the reminder) is suppressed -- the one-shot still leaves self.events, the repeat still recurs *)
+  let suppressed := gen.T18.FIRE_CHECKS_IGNORED && p_ign s in
+  let logged := PS (p_sched s) (p_counter s) (p_now s) (p_gen s) (p_dict s) (p_pickle s) (p_ncmd s)
+                   (if suppressed then p_log s else (p_now s, s_cmd e) :: p_log s) (p_loaded s)
+                   (match s_period e with None => s_cmd e :: p_done s | Some _ => p_done s end) (p_ign s) in
   match s_period e with
   | Some period =>                                        (* wrapper: f(); addEvent(wrapper, time.time() + t, name) *)
       set_sched (SE (p_now s + period) (s_name e) (s_gen e) (s_cmd e) false (Some period) :: p_sched logged) logged
@@ -141,31 +154,39 @@ Fixpoint p_loop (fuel : nat) (s : pst) : pst :=
 
 Inductive pop :=
 | QAdd (secs : Z) | QRemind (secs : Z) | QRepeat (k : N) (period delay : Z) | QRemove (key : name)
-| QReload | QRestart | QAdvance (d : N) | QRun.
+| QReload | QRestart | QAdvance (d : N) | QRun | QUnload | QLoad | QIgnore (b : bool).
 
-Definition pstep (o : pop) (s : pst) : pst :=
+(* commands exist only while the plugin is loaded; unload = die(); load = a new instance reading the pickle;
+   reload = unload + load; restart = die(), a new process (empty schedule, counter 0), load *)
+Definition pstep_with (unsched : bool) (o : pop) (s : pst) : pst :=
   match o with
-  | QAdd secs => let '(c, s1) := fresh_cmd s in fst (p_add (p_now s + secs) c false None s1)
-  | QRemind secs => let '(c, s1) := fresh_cmd s in fst (p_add (p_now s + secs) c true None s1)
+  | QAdd secs => if p_loaded s then let '(c, s1) := fresh_cmd s in fst (p_add (p_now s + secs) c false None s1) else snd (fresh_cmd s)
+  | QRemind secs => if p_loaded s then let '(c, s1) := fresh_cmd s in fst (p_add (p_now s + secs) c true None s1) else snd (fresh_cmd s)
   | QRepeat k period delay =>
       let '(c, s1) := fresh_cmd s in
-      if dhas (Named k) (p_dict s1) then s1                 (* 'There is already an event with that name' *)
+      if negb (p_loaded s) || dhas (Named k) (p_dict s1) then s1      (* 'There is already an event with that name' *)
       else fst (p_repeat (Named k) period c (p_now s + delay) delay s1)
   | QRemove key =>
-      if dhas key (p_dict s) then
+      if p_loaded s && dhas key (p_dict s) then
         let s1 := set_dict (ddel key (p_dict s)) s in
         set_sched (filter (fun e => negb (name_eqb (s_name e) key)) (p_sched s1)) s1
       else s
-  | QReload => p_load (p_die s)
+  | QUnload => if p_loaded s then p_die_with unsched s else s
+  | QLoad => if p_loaded s then s else p_load s
+  | QReload => if p_loaded s then p_load (p_die_with unsched s) else s
   | QRestart =>
-      let s1 := p_die s in
-      p_load (PS [] 0%N (p_now s1) (p_gen s1) (p_dict s1) (p_pickle s1) (p_ncmd s1) (p_log s1))
-  | QAdvance d => PS (p_sched s) (p_counter s) (p_now s + Z.of_N d) (p_gen s) (p_dict s) (p_pickle s) (p_ncmd s) (p_log s)
+      let s1 := if p_loaded s then p_die_with unsched s else s in
+      p_load (PS [] 0%N (p_now s1) (p_gen s1) (p_dict s1) (p_pickle s1) (p_ncmd s1) (p_log s1) false (p_done s1) (p_ign s1))
+  | QAdvance d => PS (p_sched s) (p_counter s) (p_now s + Z.of_N d) (p_gen s) (p_dict s) (p_pickle s) (p_ncmd s) (p_log s) (p_loaded s) (p_done s) (p_ign s)
   | QRun => p_loop (Datatypes.S (length (p_sched s))) s
+  | QIgnore b => PS (p_sched s) (p_counter s) (p_now s) (p_gen s) (p_dict s) (p_pickle s) (p_ncmd s) (p_log s) (p_loaded s) (p_done s) b
   end.
 
-Fixpoint prun_ops (ops : list pop) (s : pst) : pst :=
-  match ops with [] => s | o :: ops' => prun_ops ops' (pstep o s) end.
+Definition pstep := pstep_with gen.T18.DIE_UNSCHEDULES.
+
+Fixpoint prun_ops_with (u : bool) (ops : list pop) (s : pst) : pst :=
+  match ops with [] => s | o :: ops' => prun_ops_with u ops' (pstep_with u o s) end.
+Definition prun_ops := prun_ops_with gen.T18.DIE_UNSCHEDULES.
 
 (* ---- wire ---- *)
 Definition vPev (kv : name * pev) : value :=
@@ -175,7 +196,7 @@ Definition vPev (kv : name * pev) : value :=
   end.
 Definition vSent (e : sent) : value := L [I (s_t e); vName (s_name e)].
 Definition vPSnap (s : pst) : value :=
-  L [L (map vPev (p_dict s)); L (map vSent (p_sched s)); vN (p_counter s); I (p_now s);
+  L [L (map vPev (if p_loaded s then p_dict s else [])); L (map vSent (p_sched s)); vN (p_counter s); I (p_now s);
      L (map (fun x => L [I (fst x); vN (snd x)]) (p_log s))].
 
 Definition gPop (v : value) : pop :=
@@ -187,6 +208,9 @@ Definition gPop (v : value) : pop :=
   | 4%N => QReload
   | 5%N => QRestart
   | 6%N => QAdvance (gN (nth_v 1 v))
+  | 8%N => QUnload
+  | 9%N => QLoad
+  | 10%N => QIgnore (gB (nth_v 1 v))
   | _ => QRun
   end.
 
